@@ -182,6 +182,7 @@ struct Stats {
     iter_walks: usize,
     takes: usize,
     casts: usize,
+    failed_inits: usize,
 }
 
 fn build_pool(case: &Case) -> (Box<dyn PoolObj>, Vec<TypeDesc>) {
@@ -271,6 +272,7 @@ pub fn run_case(case: &Case, ctx: &mut Ctx, property: &str) -> Verdict {
         iter_walks: 0,
         takes: 0,
         casts: 0,
+        failed_inits: 0,
     };
     ctx.classify(&format!("pool:{kind}"));
     ctx.classify(&format!("cap:{}", case.cap));
@@ -305,6 +307,27 @@ pub fn run_case(case: &Case, ctx: &mut Ctx, property: &str) -> Verdict {
                 let key = key_of(id, 0);
                 let cap_before = pool.capacity(slot);
                 let len_before = pool.len();
+                // one in 16 in-place insertions has an initialisation closure that panics before
+                // writing: nothing is inserted, the panic reaches the caller, and every oracle
+                // keeps holding for the objects that exist
+                if rop.b & 1 == 1 && (rop.b >> 1) % 16 == 15 {
+                    crate::fams::PANIC_NEXT_INIT.set(true);
+                    let r = std::panic::catch_unwind(std::panic::AssertUnwindSafe(|| pool.insert(slot, key, true)));
+                    crate::fams::PANIC_NEXT_INIT.set(false);
+                    match r {
+                        Ok(_) => {
+                            return Err(fl(&sig_ctx("C02", "insert_with", "closure-panic-swallowed"), format!("step {step}: the initialisation closure panicked but insert_with returned a handle")));
+                        }
+                        Err(p) => {
+                            if p.downcast_ref::<crate::fams::InitPanic>().map(|i| i.0) != Some(key) {
+                                return Err(fl(&sig_ctx("C01", "insert_with", "foreign-panic"), format!("step {step}: insert_with with a panicking closure did not propagate the closure's panic but: {}", vcommon::panic_message(&*p))));
+                            }
+                        }
+                    }
+                    st.failed_inits += 1;
+                    check_state(&*pool, &objs, &descs, &dead_droppy, step, kind, true)?;
+                    continue;
+                }
                 let h = pool.insert(slot, key, rop.b & 1 == 1);
                 let addr = h.addr();
                 if st.slab_cap == 0 && cap_before == 0 {
@@ -640,6 +663,9 @@ pub fn run_case(case: &Case, ctx: &mut Ctx, property: &str) -> Verdict {
     }
     if st.takes > 0 {
         ctx.classify("extracted-by-value");
+    }
+    if st.failed_inits > 0 {
+        ctx.classify("insert_with-closure-panicked");
     }
     if st.casts > 0 {
         ctx.classify("trait-object-cast");
